@@ -143,6 +143,7 @@ def scriptKey? (s : Str) : Option (Res ExtXKey) :=
       else if iv.length == 32 then (hexBytes? iv).map fun bs => some (.aes128 (bytesToNat bs)) else none
     let vers? : Option (Option KeyFormatVersions) :=
       if v == ['-'] then some none
+      else if v == "empty".toList then some (some (KeyFormatVersions.fromIter []))
       else
         let items := (splitAll '/' v).map (parseNat? 8)
         if items.all Option.isSome then some (some (KeyFormatVersions.fromIter (items.filterMap fun x => x))) else none
@@ -492,6 +493,7 @@ def decryptionKeyToken (b : DecryptionKeyBuilder) (k v : Str) : Option Decryptio
     (if v.length == 32 then (hexBytes? v).map fun bs => { b with iv := some (.aes128 (bytesToNat bs)) } else none)
   else if k == "format".toList then (hexArg? v).map fun x => { b with format := some (KeyFormat.parse x) }
   else if k == "versions".toList then
+    if v == "empty".toList then some { b with versions := some (KeyFormatVersions.fromIter []) } else
     let items := (splitAll '/' v).map (parseNat? 8)
     if items.all Option.isSome then some { b with versions := some (KeyFormatVersions.fromIter (items.filterMap fun x => x)) } else none
   else none
